@@ -143,7 +143,14 @@ class HCreateSolution(Handler):
                 got = R.canon(solutes[0], res.contents.get(solutes[0], 0.0)) * R.per(solutes[0], qb)
                 if abs(got - qv) > 1e-4 * abs(qv):
                     met = False
-                expect = dict(expect, tag='inconsistent:' + ('solved_rows_met' if met else 'other'))
+                # ... and only while the contradiction is below the absolute residual test the finding describes (1e-6 in the
+                # base unit of the stated quantity); a contradiction the test itself must catch is another failure
+                small = True
+                for s, (qv_, qb_) in list(zip(solutes, pq))[1:]:
+                    got_ = R.canon(s, res.contents.get(s, 0.0)) * R.per(s, qb_)
+                    if abs(got_ - qv_) > 1.5e-6:
+                        small = False
+                expect = dict(expect, tag='inconsistent:' + (('solved_rows_met' if small else 'residual_above_the_absolute_test') if met else 'other'))
             M.violate(['C05', 'C03'], 'SOLN', f'C05:infeasible_request_accepted:{spec}:{skind}:{expect.get("tag")}',
                       {'solutes': [s.name for s in solutes], 'solvent': H1._short(solvent), 'kwargs': kw,
                        'result': F.snap_contents(res)})
